@@ -353,7 +353,10 @@ package stree
 //@   loop 1: invariant [C03] greatest: max in old(cur(c)).desc && rank(cmp, max.X) in old(cur(c)).keys && forall k int :: {k in old(cur(c)).keys} k in old(cur(c)).keys ==> k in max.keys || k < rank(cmp, max.X)
 //@
 //@ func (*Cursor).findNext
-//@   requires [C03] c != nil && len(c.path) > 0 && pathOK(c)
+//@   ghost cmp func(T, T) int
+//@   requires [C03] c != nil && len(c.path) > 0 && pathOK(c) && ordPath(c.path, cmp)
+//@   ensures  [C03] upMax: cur(c).right == nil ==> forall k int :: {k in c.path[result.1 + 1].keys} k in c.path[result.1 + 1].keys ==> k <= rank(cmp, cur(c).X)
+//@   loop 1: invariant [C03] max: rank(cmp, cur(c).X) in c.path[i].keys && forall k int :: {k in c.path[i].keys} k in c.path[i].keys ==> k <= rank(cmp, cur(c).X)
 //@   ensures  [C03] down: cur(c).right != nil ==> result.0 == cur(c).right && result.1 == -1
 //@   ensures  [C03] up: cur(c).right == nil ==> result.0 == nil && -1 <= result.1 && result.1 < len(c.path) - 1
 //@   ensures  [C03] turn: cur(c).right == nil && result.1 >= 0 ==> forall a int, b int :: {c.path[a], c.path[b]} a == result.1 && b == a + 1 ==> c.path[b] == c.path[a].left
@@ -363,7 +366,10 @@ package stree
 //@   loop 1: decreases j + 1
 //@
 //@ func (*Cursor).findPrev
-//@   requires [C03] c != nil && len(c.path) > 0 && pathOK(c)
+//@   ghost cmp func(T, T) int
+//@   requires [C03] c != nil && len(c.path) > 0 && pathOK(c) && ordPath(c.path, cmp)
+//@   ensures  [C03] upMin: cur(c).left == nil ==> forall k int :: {k in c.path[result.1 + 1].keys} k in c.path[result.1 + 1].keys ==> k >= rank(cmp, cur(c).X)
+//@   loop 1: invariant [C03] min: rank(cmp, cur(c).X) in c.path[i].keys && forall k int :: {k in c.path[i].keys} k in c.path[i].keys ==> k >= rank(cmp, cur(c).X)
 //@   ensures  [C03] down: cur(c).left != nil ==> result.0 == cur(c).left && result.1 == -1
 //@   ensures  [C03] up: cur(c).left == nil ==> result.0 == nil && -1 <= result.1 && result.1 < len(c.path) - 1
 //@   ensures  [C03] turn: cur(c).left == nil && result.1 >= 0 ==> forall a int, b int :: {c.path[a], c.path[b]} a == result.1 && b == a + 1 ==> c.path[b] == c.path[a].right
@@ -385,8 +391,14 @@ package stree
 //@   ensures  [C03] up: c != nil && len(c.path) != 0 && cur(c).left == nil ==> (result <==> !(forall a int, b int :: {c.path[a], c.path[b]} 0 <= a && b == a + 1 && b < len(c.path) ==> c.path[b] != c.path[a].right))
 //@
 //@ func (*Cursor).Next
-//@   requires [C03] c != nil ==> pathOK(c)
-//@   ensures  [C03] same: result == c && (c != nil ==> pathOK(c))
+//@   ghost cmp func(T, T) int
+//@   requires [C03] c != nil ==> pathOK(c) && ordPath(c.path, cmp)
+//@   ensures  [C03] same: result == c && (c != nil ==> pathOK(c) && ordPath(c.path, cmp))
+//@   ensures  [C03] succ: c != nil && old(len(c.path)) != 0 && len(c.path) != 0 ==> rank(cmp, cur(c).X) > old(rank(cmp, cur(c).X)) && c.path[0] == old(c.path[0]) && forall k int :: {k in c.path[0].keys} k in c.path[0].keys ==> k <= old(rank(cmp, cur(c).X)) || k >= rank(cmp, cur(c).X)
+//@   ensures  [C03] last: c != nil && old(len(c.path)) != 0 && len(c.path) == 0 ==> forall k int :: {k in old(c.path[0]).keys} k in old(c.path[0]).keys ==> k <= old(rank(cmp, cur(c).X))
+//@   call findNext#1: cmp = cmp
+//@   loop 1: invariant [C03] ord: ordPath(c.path, cmp)
+//@   loop 1: invariant [C03] least: len(c.path) > old(len(c.path)) ==> cur(c) in old(cur(c).right).desc && forall k int :: {k in old(cur(c).right).keys} k in old(cur(c).right).keys ==> k in cur(c).keys || k > rank(cmp, cur(c).X)
 //@   ensures  [C03] invalid: c != nil && old(len(c.path)) == 0 ==> len(c.path) == 0
 //@   ensures  [C03] down: c != nil && old(len(c.path)) != 0 && old(cur(c).right) != nil ==> len(c.path) > old(len(c.path)) && samePrefix(c, old(len(c.path))) && cur(c).left == nil
 //@   ensures  [C03] downFirst: c != nil && old(len(c.path)) != 0 && old(cur(c).right) != nil ==> forall a int, b int :: {c.path[a], c.path[b]} b == old(len(c.path)) && b == a + 1 ==> c.path[b] == c.path[a].right
@@ -402,8 +414,14 @@ package stree
 //@   loop 1: invariant [C03] rest: forall a int, b int :: {c.path[a], c.path[b]} old(len(c.path)) < b && b == a + 1 && b < len(c.path) ==> c.path[b] == c.path[a].left
 //@
 //@ func (*Cursor).Prev
-//@   requires [C03] c != nil ==> pathOK(c)
-//@   ensures  [C03] same: result == c && (c != nil ==> pathOK(c))
+//@   ghost cmp func(T, T) int
+//@   requires [C03] c != nil ==> pathOK(c) && ordPath(c.path, cmp)
+//@   ensures  [C03] same: result == c && (c != nil ==> pathOK(c) && ordPath(c.path, cmp))
+//@   ensures  [C03] pred: c != nil && old(len(c.path)) != 0 && len(c.path) != 0 ==> rank(cmp, cur(c).X) < old(rank(cmp, cur(c).X)) && c.path[0] == old(c.path[0]) && forall k int :: {k in c.path[0].keys} k in c.path[0].keys ==> k >= old(rank(cmp, cur(c).X)) || k <= rank(cmp, cur(c).X)
+//@   ensures  [C03] first: c != nil && old(len(c.path)) != 0 && len(c.path) == 0 ==> forall k int :: {k in old(c.path[0]).keys} k in old(c.path[0]).keys ==> k >= old(rank(cmp, cur(c).X))
+//@   call findPrev#1: cmp = cmp
+//@   loop 1: invariant [C03] ord: ordPath(c.path, cmp)
+//@   loop 1: invariant [C03] greatest: len(c.path) > old(len(c.path)) ==> cur(c) in old(cur(c).left).desc && forall k int :: {k in old(cur(c).left).keys} k in old(cur(c).left).keys ==> k in cur(c).keys || k < rank(cmp, cur(c).X)
 //@   ensures  [C03] invalid: c != nil && old(len(c.path)) == 0 ==> len(c.path) == 0
 //@   ensures  [C03] down: c != nil && old(len(c.path)) != 0 && old(cur(c).left) != nil ==> len(c.path) > old(len(c.path)) && samePrefix(c, old(len(c.path))) && cur(c).right == nil
 //@   ensures  [C03] downFirst: c != nil && old(len(c.path)) != 0 && old(cur(c).left) != nil ==> forall a int, b int :: {c.path[a], c.path[b]} b == old(len(c.path)) && b == a + 1 ==> c.path[b] == c.path[a].left
